@@ -1,6 +1,5 @@
 """One-off run of the C17 findings on the real halmos classes with REAL child processes.
-F6 (cancel() before Popen is a no-op) reproduces; F5 (446a9a7, 2f54d38) and F15 (0f4e35b) are repaired: the same
-scenarios now show the repaired behaviour.
+F5 (446a9a7, 2f54d38), F6 (1eaaf0c) and F15 (0f4e35b) are repaired: the scenarios now show the repaired behaviour.
 Run: PYTHONPATH=/repo/src /venv/bin/python harness/props/C17_real_repro.py   (not part of bin/check; the check
 replays the same schedules through its forced-schedule tie, see CORPUS in C17.py)."""
 import sys, threading, time
@@ -61,7 +60,7 @@ print("F5 (repaired): submit() whose first flag test preceded shutdown(wait=Fals
       "; registered futures =", len(ex.futures), "running children =", alive("F5marker"))
 f.cancel()
 
-# ---- F6: cancel() is a no-op before Popen
+# ---- F6 (repaired): shutdown(wait=False) while the worker is inside Popen: cancel() waits for the spawn, then kills
 ex = P.PopenExecutor()
 at_popen, go2 = threading.Event(), threading.Event()
 real_popen = P.Popen
@@ -76,10 +75,11 @@ P.Popen = slow_popen
 f = P.PopenFuture(["sh", "-c", "sleep 4 # F6marker"])
 ex.submit(f)
 at_popen.wait()
+threading.Timer(0.3, go2.set).start()         # the repaired cancel() waits for the spawn in progress
 ex.shutdown(wait=False)
-print("F6: shutdown(wait=False) returned; process of the registered job:", f.process)
+print("F6 (repaired): shutdown(wait=False) returned after waiting for the spawn in progress; process of the job:", f.process)
 go2.set(); time.sleep(0.3)
-print("F6: after shutdown returned the worker spawned its solver: running children =", alive("F6marker"), "future done =", f.done())
+print("F6 (repaired): running children after shutdown =", alive("F6marker"), "future done =", f.done())
 P.Popen = real_popen
 f.cancel()
 
